@@ -24,6 +24,13 @@ def klass(case, m):
 def run(chk):
     thorough = chk.tier == "thorough"
     W, tlc = chk.workdir, chk.tlc
+    # unbounded argument (Apalache): composition, closure and isometry of two placements for ALL integer offsets and points
+    apa = os.path.join(vlib.SPECS, "apalache", "D4Ind.tla")
+    oc, secs = vlib.apalache(apa, ["--init=AnyInit", "--inv=Laws", "--length=0"])
+    chk.cov["apalache_placement_algebra_laws"] = {"outcome": oc, "seconds": secs,
+                                                  "scope": "two placements over the eight orientations, all integer offsets and points"}
+    vlib.log(f"[apalache] D4Ind: {oc} ({secs:.1f}s)")
+    chk.require(oc != "Error", "Apalache: the placement algebra violates its composition laws (specification defect)")
     cfg = os.path.join(W, "mc_d4.cfg")
     open(cfg, "w").write(f"SPECIFICATION Spec\nCONSTANTS Depth = 4  SampleMod = {1 if thorough else 23}\n"
                          "INVARIANTS AccIsPathMap ComposedIsSequential Closure MirrorParity InverseIsTranspose GroupLaws Emit\n"
